@@ -675,7 +675,7 @@ func exprPoly(info *types.Info, e ast.Expr, defs map[types.Object]localDef, stop
 		}
 		// a call of a function of the same package that does nothing but return an expression is read as that
 		// expression (resolved forms only): moving a formula into such a helper, or back, changes nothing
-		if defs != nil && polyInline != nil && depth < 30 {
+		if (defs != nil || polyInlineNamed) && polyInline != nil && depth < 30 {
 			if f := calleeFunc(info, x); f != nil {
 				if hd, ok := polyInline[f]; ok && hd.info == info && len(polyInlining) < 4 && !polyInlining[f] {
 					ret := hd.fd.Body.List[0].(*ast.ReturnStmt).Results[0]
@@ -1071,6 +1071,10 @@ type inlineDecl struct {
 }
 
 var polyInline map[*types.Func]inlineDecl
+
+// polyInlineNamed: read such calls in place in the named and type-named forms too (formula.spec: a helper whose body
+// changed must change the formulas of its callers, whichever form they are matched in).
+var polyInlineNamed bool
 var polyInlining = map[*types.Func]bool{}
 
 func inlinableFuncs(p *Prog) map[*types.Func]inlineDecl {
